@@ -222,6 +222,28 @@ func TestVerif_C12(t *testing.T) {
 		defer res.Close()
 		c12Judge(r, "builtnat", ci, res)
 	})
+	// topology changes: a link not adjacent to most holders goes away, origins re-announce
+	var cyclic []simGraph
+	for n := 3; n <= 5; n++ {
+		for _, g := range graphs[n] {
+			if len(g.Edges) >= g.N {
+				cyclic = append(cyclic, g)
+			}
+		}
+	}
+	r.Cases("reroute", r.N(500, 40000), func(ci int, rng *verifkit.Rand) {
+		var g simGraph
+		if ci%2 == 0 {
+			g = simLadder(rng.Range(1, 2), rng.Range(2, 3), rng.Chance(1, 3)) // equal-length alternatives behind one neighbour
+		} else {
+			g = cyclic[rng.Intn(len(cyclic))]
+		}
+		res := convReroute(rng, g)
+		defer res.Close()
+		r.Add("reroute_cases", 1)
+		c12Judge(r, "reroute", ci, res)
+	})
+	r.Require("reroute_cases", 300)
 	// origins whose route set needs several advertisements (> 254 routes or > byte budget)
 	r.Cases("large", r.N(40, 2500), func(ci int, rng *verifkit.Rand) {
 		class := "flood"
